@@ -77,7 +77,8 @@ let () = each_line (fun line ->
   | hdr :: ops ->
     (match split_ws hdr with
      | [nt; ng] ->
-       let s = ref (init (nat nt) (nat ng)) in
+       let hold v = try z_of_string (Sys.getenv v) with Not_found -> z_of_string "10000000" in
+       let s = ref (init_h (hold "C11_HOLD_QUEUED_US", hold "C11_HOLD_UNSNUB_US") (nat nt) (nat ng)) in
        let out = Buffer.create 4096 in
        Buffer.add_string out (dump !s);
        (try
